@@ -17,7 +17,7 @@ RULE = ('random HRG/FGG shapes built with implicit, explicit and mixed ids (expl
         'grammar of vaxes; non-trivial = grammar with >= 2 rules or a rule with >= 3 nodes')
 ASSUMPTIONS = ["CPython's json module is trusted (dumps/loads round trip of the produced object is exercised, not modelled)"]
 
-NUMERIC_IDS = ['10', '9', '100', '1', '02', 'a', 'B', '_', 'aa', 'Z9']
+NUMERIC_IDS = ['10', '9', '100', '1', '02', 'a', 'B', '_', 'aa', 'Z9', '', '0', ' ', 'None', 'false']   # incl. falsy and odd strings
 
 
 def tok(s):
